@@ -336,6 +336,15 @@ def stepAdapter (op : String) (args : List String) : Option String :=
     if hist.length > 64 then none else
     let (pol, withMon) ← Adp.parseCfg cfg
     pure (Adp.runHistory hist pol withMon)
+  | "ads", [h, cfg] => do
+    -- real-TSocket history: sequential, same meaning as the adp history it maps to
+    let hist ← unhex h
+    if hist.length > 64 then none else
+    if hist.any (fun b => b.toNat % 16 > 9 && b.toNat % 16 != 15) then none else
+    let (pol, withMon) ← Adp.parseCfg cfg
+    let m : Nat → Nat := fun a => if a = 6 then 4 else a
+    let adp := hist.map fun b => UInt8.ofNat (m (b.toNat % 16) + 16 * (b.toNat / 16))
+    pure (Adp.runHistory adp pol withMon)
   | "cut", [x, k, mode] => do
     -- inbound stream x cut after k bytes, then EOF (e) or a read error (r)
     let bs ← unhex x
